@@ -47,10 +47,47 @@ func crashed(r hx.BinResult) bool {
 type tokgen struct {
 	t *rapid.T
 	n int
+	// special: the case is about keys the XML encoder treats specially
+	special bool
 }
 
 func (g *tokgen) str() string { g.n++; return fmt.Sprintf("s%dx", g.n) }
 func (g *tokgen) key() string { g.n++; return fmt.Sprintf("k%dq", g.n) }
+
+// mapKey: now and then a key the XML encoder treats specially (attribute, content, processing instruction,
+// directive); the other formats print it like any key
+func (g *tokgen) mapKey(m *model.Value) string {
+	hi := 40
+	if g.special {
+		hi = 8
+	}
+	switch rapid.IntRange(0, hi).Draw(g.t, "special") {
+	case 0, 1:
+		return "+@" + g.key()
+	case 2:
+		if _, dup := m.Get("+content"); !dup {
+			return "+content"
+		}
+	case 3:
+		return "+p_" + g.key()
+	case 4:
+		if _, dup := m.Get("+directive"); !dup {
+			return "+directive"
+		}
+	}
+	return g.key()
+}
+
+// keyToken: what of a key must show in every format's output
+func keyToken(k string) string {
+	switch {
+	case k == "+content" || k == "+directive":
+		return ""
+	case strings.HasPrefix(k, "+@"), strings.HasPrefix(k, "+p_"):
+		return k[strings.Index(k, "k"):]
+	}
+	return k
+}
 func (g *tokgen) num() int64  { g.n++; return int64(10000 + g.n*7) }
 
 func (g *tokgen) value(depth int) *model.Value {
@@ -68,7 +105,7 @@ func (g *tokgen) value(depth int) *model.Value {
 	case k <= 6:
 		m := model.NewMap()
 		for i := rapid.IntRange(0, 3).Draw(g.t, "mn"); i > 0; i-- {
-			m.Set(g.key(), g.value(depth-1))
+			m.Set(g.mapKey(m), g.value(depth-1))
 		}
 		return m
 	default:
@@ -124,7 +161,9 @@ func tokens(v *model.Value, out *[]string) {
 			if flatOnly && !hasScalar(v.Vals[i]) {
 				continue
 			}
-			*out = append(*out, k)
+			if kt := keyToken(k); kt != "" {
+				*out = append(*out, kt)
+			}
 			tokens(v.Vals[i], out)
 		}
 	case model.Seq:
@@ -151,11 +190,14 @@ type FmtCase struct {
 }
 
 func genFmt(t *rapid.T) FmtCase {
-	g := &tokgen{t: t}
+	g := &tokgen{t: t, special: rapid.IntRange(0, 3).Draw(t, "specialkeys") == 0}
 	c := FmtCase{Doc: g.value(rapid.IntRange(0, 3).Draw(t, "depth")).JSON(), Out: rapid.SampledFrom(outFormats).Draw(t, "out"),
 		Expr: rapid.SampledFrom([]string{".", ".", ".[]", "..", ".[0]", "[.]", "{\"w\": .}", ".[] | select(kind == \"scalar\")", "to_entries", "[.. | select(kind == \"scalar\")]", ". as $x | [$x, $x] | .[0]"}).Draw(t, "expr")}
 	if rapid.IntRange(0, 3).Draw(t, "second") == 0 {
 		c.Second = g.value(2).JSON()
+	}
+	if g.special && rapid.Bool().Draw(t, "toxml") {
+		c.Out = "xml"
 	}
 	c.Nul = rapid.IntRange(0, 4).Draw(t, "nul") == 0
 	return c
